@@ -496,6 +496,16 @@ class StmtMixin:
             out.append('}')
         else:
             self.stmt(body[0], out, '')
+        if any(re.fullmatch(pat, self.cur_fn or '') for pat in self.u.get('cut_recursion', [])):
+            # direct recursion is cut at the function's own contract: self-calls go to <name>__rec, a stub the spec
+            # gives the contract of the function (the induction hypothesis); the body is checked against the same contract
+            rec = cn + '__rec'; n_rec = 0
+            for i_ in range(2, len(out)):
+                new_line, k_ = re.subn(r'\b%s\(' % re.escape(cn), rec + '(', out[i_]); out[i_] = new_line; n_rec += k_
+            if n_rec:
+                self.autostubs.setdefault(rec, sig.replace(' %s(' % cn, ' %s(' % rec, 1) + ';')
+                self.fninfo.setdefault(rec, {'qname': (self.cur_fn or cn) + ' (recursive call)', 'stub': True})
+                self.rules['recursion-cut-at-contract'] += n_rec
         loc = d.get('loc', {})
         self.fninfo[cn] = {'qname': self.cur_fn, 'line': loc.get('line') or loc.get('spellingLoc', {}).get('line'),
                            'file': loc.get('file') or self.last_file(d), 'loops': self.loopn, 'sig': sig}
